@@ -73,6 +73,7 @@ type FuncContract struct {
 	File     string
 	Trusted  string
 	Owns     []*Clause
+	Scope    []*Clause
 	Assume   []*Clause // assumed at entry without being checked at call sites (type invariants)
 }
 
@@ -446,7 +447,7 @@ func (db *ContractDB) loadContractFile(path, pkg string) error {
 			case curM != nil:
 				curM.Props = append(curM.Props, ps...)
 			}
-		case "requires", "ensures", "invariant", "assert", "assume", "where", "decreases", "entry-assume":
+		case "requires", "ensures", "invariant", "assert", "assume", "where", "decreases", "entry-assume", "scope":
 			c, err := parseClause(rest, pos)
 			if err != nil {
 				return err
@@ -456,6 +457,11 @@ func (db *ContractDB) loadContractFile(path, pkg string) error {
 				curF.Requires = append(curF.Requires, c)
 			case curF != nil && kw == "entry-assume":
 				curF.Assume = append(curF.Assume, c)
+			case curF != nil && kw == "scope":
+				// scope: the contract only speaks about calls satisfying this condition. Assumed
+				// when the function is verified; at call sites the post-conditions are assumed only
+				// under it; no obligation for callers.
+				curF.Scope = append(curF.Scope, c)
 			case curF != nil && kw == "ensures":
 				curF.Ensures = append(curF.Ensures, c)
 			case curF != nil && kw == "invariant" && curLoop != nil:
